@@ -5,11 +5,15 @@ from props._fa_common import TRUSTED, ASSUMPTIONS, TECHNIQUE
 
 PROP = "C02"
 LEVEL = "proof"
-THEOREMS = {"Properties.C02": ["C02_equiv_sound", "C02_equiv_complete", "C02_reduced_certificate", "C02_equiv_total", "C02_minimal_unique", "C02_trim_certificate"]}
+THEOREMS = {"Properties.C02": ["C02_equiv_sound", "C02_equiv_complete", "C02_reduced_certificate", "C02_equiv_total", "C02_minimal_unique", "C02_trim_certificate",
+                             "C02_minimize_model", "C02_minimize_canonical"]}
 LEVEL_TEXT = ("Coq theorems (no axioms): the model of is_equivalent_to (lock-step subset-pair exploration) returns true exactly when the two languages "
               "are equal (sound and complete whenever it terminates within fuel). pyformlang's minimise-and-walk algorithm is modelled, not mirrored: "
-              "the answer is uniquely determined, and is compared on every case. minimize(): each returned DFA is certified reduced (all states reachable, "
-              "pairwise distinguished) by a proved-sound checker.")
+              "the answer is uniquely determined, and is compared on every case. minimize() is modelled by its specification (live states grouped by "
+              "language equivalence, quotient) and proved, for every DFA, to return a deterministic, reduced, trim automaton with the same language "
+              "(C02_minimize_model); any automaton with these properties is isomorphic to it (C02_minimize_canonical). Each DFA pyformlang returns is "
+              "certified language-equal, deterministic, reduced (all states reachable, pairwise distinguished) and trim by proved-sound checkers, "
+              "which by the theorem makes it isomorphic to the model's result; sizes are compared as well. The Hopcroft worklist itself is not mirrored.")
 LEVEL_NOTE = "Trusted: Coq kernel; model validated by correspondence; Python harness. Hopcroft's data structures are modelled by their specification only."
 RULE = ("ordered pairs of random automata: equal languages (an automaton vs its determinisation/eps-removal/renaming/with extra dead, unreachable or sink states), "
         "unequal languages (one mutation), different alphabets x {is_equivalent_to, ==}; plus minimize() outputs checked reduced and size-canonical")
@@ -73,71 +77,7 @@ def generate(ctx):
     return cases
 
 
-# ---- search stage for the partition refinement: many mid-sized DFAs, pre-filtered in Python; only the suspects go to the certified judge ----
-def _trim_minimal_count(spec):
-    """number of states of the minimal trim DFA of a deterministic spec (independent Moore refinement)"""
-    vk = falib.vkey
-    delta = {(vk(s), a): vk(t) for s, a, t in spec["trans"]}
-    syms = list(spec["symbols"])
-    reach, todo = set(), [vk(x) for x in spec["starts"]]
-    while todo:
-        q = todo.pop()
-        if q in reach:
-            continue
-        reach.add(q)
-        todo += [delta[(q, a)] for a in syms if (q, a) in delta]
-    finals = {vk(x) for x in spec["finals"]} & reach
-    co, changed = set(finals), True
-    while changed:
-        changed = False
-        for (q, a), t in delta.items():
-            if q in reach and t in co and q not in co:
-                co.add(q)
-                changed = True
-    live = reach & co
-    cls = {q: (q in finals) for q in live}
-    while True:
-        sig = {q: (cls[q], tuple(cls.get(delta.get((q, a))) for a in syms)) for q in live}
-        if len(set(sig.values())) == len(set(cls.values())):
-            return len(set(sig.values()))
-        cls = sig
-
-
-def _accepts(spec, w):
-    vk = falib.vkey
-    delta = {(vk(s), a): vk(t) for s, a, t in spec["trans"]}
-    cur = [vk(x) for x in spec["starts"]]
-    if len(cur) != 1:
-        return False
-    q = cur[0]
-    for a in w:
-        q = delta.get((q, a))
-        if q is None:
-            return False
-    return q in {vk(x) for x in spec["finals"]}
-
-
-def _search(case):
-    import random
-    rng = random.Random(case["seed"])
-    suspects, tried = [], 0
-    for _ in range(case["count"]):
-        spec = falib.rand_big_dfa(rng)
-        tried += 1
-        try:
-            x = falib.extract_fa(falib.build_fa(spec).minimize())
-        except Exception:
-            suspects.append(spec)
-        else:
-            k = len(spec["symbols"])
-            ws = falib.words_upto(spec["symbols"], 7 if k == 2 else 5)
-            det = len({(falib.vkey(s), a) for s, a, t in x["trans"]}) == len(x["trans"]) and all(a is not None for s, a, t in x["trans"])
-            t_count = _trim_minimal_count(spec)
-            if not det or any(_accepts(spec, w) != _accepts(x, w) for w in ws) or not (t_count <= len(x["states"]) <= t_count + 1):
-                suspects.append(spec)
-        if len(suspects) >= 3:
-            break
-    return {"tried": tried, "suspects": suspects}
+_search = fa_engine.hopcroft_search
 
 
 def impl(case):
